@@ -50,6 +50,14 @@ def cross_thread(rep):
         'modify an object of another thread\'s session': lambda: setattr(box['a'], 'x', 5),
         'delete an object of another thread\'s session': lambda: box['a'].delete(),
     }
+    # the same uses as the FIRST operation of the session (no session cache exists yet when the check is made)
+    first = {
+        'get(ref=foreign object) as the first operation': lambda: B.get(a=box['a']),
+        'exists(ref=foreign object) as the first operation': lambda: B.exists(a=box['a']),
+        'create with a foreign reference as the first operation': lambda: B(id=8, y=1, a=box['a']),
+        'filter(ref=foreign object) as the first operation': lambda: B.select().filter(a=box['a'])[:],
+    }
+    cases.update(first)
     try:
         for name, f in cases.items():
             with db_session:
@@ -64,6 +72,54 @@ def cross_thread(rep):
                              replay='# C22 cross-thread object use: %s -> %s (expected TransactionError); see checks/c22.py cross_thread()\nraise SystemExit(1)\n' % (name, got)))
     finally:
         done.set(); th.join(20)
+    # ... and once more after the other thread's session is OVER (its objects are detached snapshots of a finished session)
+    for name, f in first.items():
+        with db_session:
+            try:
+                f(); got = 'accepted'
+            except (core.TransactionError, core.DatabaseSessionIsOver) as e: got = type(e).__name__
+            except Exception as e: got = type(e).__name__
+            finally: rollback()
+        nm = 'cross-thread (owner session finished): ' + name
+        if got in ('TransactionError', 'DatabaseSessionIsOver'): rep.add(Ob(nm, 'concrete-tie', HOLDS, detail=got))
+        else: rep.add(Ob(nm, 'concrete-tie', CEX, detail='expected TransactionError, got %s' % got, cex={'case': name, 'got': got}, reproduced=True, key=None,
+                         replay='# C22 cross-thread object use after the owner session ended: %s -> %s (expected TransactionError); see checks/c22.py cross_thread()\nraise SystemExit(1)\n' % (name, got)))
+
+
+def thread_local_state(rep):
+    """Structural tie: every mutable container reachable as an attribute of pony's thread-local objects (core.local, a provider's
+    pool, Database._dblocal) is a different object in a second thread - a class-level default shared by all threads is process-wide
+    state in disguise."""
+    from pony.orm import Database, Required, db_session, core
+    db = Database()
+    class A(db.Entity):
+        x = Required(int)
+    db.bind('sqlite', ':sharedmemory:')
+    db.generate_mapping(create_tables=True)
+    holders = {'core.local': core.local, 'provider.pool': db.provider.pool, 'db._dblocal': db._dblocal}
+    def snap():
+        with db_session:
+            A.select()[:]
+            out = {}
+            for hn, h in holders.items():
+                for k in dir(h):
+                    if k.startswith('__'): continue
+                    try: v = getattr(h, k)
+                    except Exception: continue
+                    if isinstance(v, (list, dict, set)): out['%s.%s' % (hn, k)] = id(v)
+            return out
+    mine = snap()
+    box = {}
+    th = threading.Thread(target=lambda: box.update(snap())); th.start(); th.join(20)
+    # Pool.forked_connections is a class-level, append-only keep-alive list (connections inherited through fork() must never be
+    # garbage-collected, i.e. closed, in the child); nothing ever reads it, so it carries no state from one thread to another
+    shared = sorted(k for k in mine if k in box and mine[k] == box[k] and k != 'provider.pool.forked_connections')
+    if shared:
+        rep.add(Ob('thread-local state is per thread', 'structural', CEX, detail='the same mutable object is seen by two threads: %s' % ', '.join(shared),
+                   cex={'shared': shared}, reproduced=True, key=None,
+                   replay='# C22: mutable thread-local state shared between threads: %r (see checks/c22.py thread_local_state)\nraise SystemExit(1)\n' % (shared,)))
+    else:
+        rep.add(Ob('thread-local state is per thread', 'structural', HOLDS, detail='%d mutable containers compared' % len(mine)))
 
 
 def run(tier, seed, only=None):
@@ -80,7 +136,7 @@ def run(tier, seed, only=None):
     specs += [dict(module='checks.h_c22', fn='adversary_late_q%d' % i, cond_timeout=T, path_timeout=T / 2, setup='setup') for i in range(6)]
     if only: specs = [s for s in specs if only in s['fn']]
     ch.run_harnesses(rep, specs, classify)
-    if not only: cross_thread(rep)
+    if not only: cross_thread(rep); thread_local_state(rep)
     rep.extra = {'fault_points': 8, 'faults_injected': 5 ** 4 * 12 * 2}
     rep.bounds = {'adversary': '4 actions (nothing / delete the key / install the other thread\'s entry / a real second thread runs the same location to completion before / right after the access) around each of accesses 1-4 (adversary_q*) and 5-8 (adversary_late_q*) of the shared caches (of 4-20 per query), cold and warm start',
                   'queries': '6 program locations (pinned slice bounds, plain parameters, string query, index, filter/order_by chain, raw_sql fragment), two parameter vectors'}
